@@ -815,8 +815,32 @@ func genPartial(r *Rand, i int) Input {
 		cands = []int{r.Intn(len(q.Batch))}
 	}
 	failure := ""
-	switch k := r.Intn(12); {
-	case k < 6:
+	// the account a batch call is made on: the first of its kind in the request
+	firstOf := func(dist bool) (uint64, bool) {
+		for j, p := range q.Batch {
+			if pool[p].Dist == dist {
+				return keyAt(j), pool[p].Multi
+			}
+		}
+		return 0, false
+	}
+	callFailsOn := func() uint64 {
+		d, dm := firstOf(true)
+		o, om := firstOf(false)
+		switch x := r.Intn(10); {
+		case x < 5 && dm:
+			return d // the ordinary accounts have been signed for when the call for the distributed ones fails
+		case x < 9 && om:
+			return o
+		case dm:
+			return d
+		case om:
+			return o
+		}
+		return keyAt(r.Intn(len(q.Batch)))
+	}
+	switch k := r.Intn(13); {
+	case k < 5:
 		failure = "partial:batch-nil-entry"
 		q.BatchFail = []uint64{keyAt(cands[r.Intn(len(cands))])}
 		if r.Chance(1, 4) {
@@ -824,36 +848,32 @@ func genPartial(r *Rand, i int) Input {
 				q.BatchFail = append(q.BatchFail, k2)
 			}
 		}
-	case k < 8:
+		if r.Chance(1, 3) { // only the first batch call leaves it out
+			failure = "partial:batch-nil-entry-first-call-only"
+			q.BatchOnce, q.BatchFail = q.BatchFail, nil
+		}
+	case k < 7:
 		failure = "partial:batch-zero-entry"
 		q.BatchZero = []uint64{keyAt(cands[r.Intn(len(cands))])}
-	case k < 9: // the member cannot be signed for alone either
+	case k < 8: // the member cannot be signed for alone either
 		failure = "partial:batch-nil-entry+single-fails"
 		v := keyAt(cands[r.Intn(len(cands))])
 		q.BatchFail, q.SingleFail = []uint64{v}, []uint64{v}
-	case k < 10: // the batch call itself fails
+	case k < 11: // the batch call itself fails
 		failure = "partial:batch-call-fails"
-		q.BatchErr = []uint64{keyAt(r.Intn(len(q.Batch)))}
-		if r.Bool() { // ... on the first distributed account, the ordinary ones having been signed for
-			for j, p := range q.Batch {
-				if pool[p].Dist {
-					q.BatchErr = []uint64{keyAt(j)}
-					break
-				}
-			}
-		}
-	case k < 11:
+		q.BatchErr = []uint64{callFailsOn()}
+	case k < 12:
 		failure = "partial:single-fails"
 		q.SingleFail = []uint64{keyAt(r.Intn(len(q.Batch)))}
 	default: // a nil entry for one member and the call failing on another account
 		failure = "partial:batch-nil-entry+other-call-fails"
 		q.BatchFail = []uint64{keyAt(cands[r.Intn(len(cands))])}
-		q.BatchErr = []uint64{keyAt(r.Intn(len(q.Batch)))}
+		q.BatchErr = []uint64{callFailsOn()}
 	}
 	shape := "partial:one-request"
 	steps := []Req{q}
 	clean := q
-	clean.BatchFail, clean.BatchZero, clean.BatchErr, clean.SingleFail = nil, nil, nil, nil
+	clean.BatchFail, clean.BatchOnce, clean.BatchZero, clean.BatchErr, clean.SingleFail = nil, nil, nil, nil, nil
 	switch r.Intn(6) {
 	case 0: // the same batch asked for again when the failure has gone, and the failure once more
 		shape = "partial:failure-then-clean-then-failure"
@@ -864,8 +884,8 @@ func genPartial(r *Rand, i int) Input {
 	case 2: // the failure moves to another member
 		shape = "partial:failure-moves"
 		q2 := q
-		if len(q2.BatchFail)+len(q2.BatchZero) > 0 {
-			q2.BatchFail, q2.BatchZero = []uint64{keyAt(r.Intn(len(q.Batch)))}, nil
+		if len(q2.missKeys()) > 0 {
+			q2.BatchFail, q2.BatchOnce, q2.BatchZero = []uint64{keyAt(r.Intn(len(q.Batch)))}, nil, nil
 		}
 		steps = append(steps, q2, clean)
 	}
@@ -877,12 +897,12 @@ func genPartial(r *Rand, i int) Input {
 // partialTags: families of a request with scripted transient failures, computed from the input.
 func partialTags(in Input) []string {
 	var tags []string
-	if len(in.BatchFail)+len(in.BatchZero)+len(in.BatchErr)+len(in.SingleFail) == 0 {
+	if len(in.missKeys())+len(in.BatchErr)+len(in.SingleFail) == 0 {
 		return nil
 	}
 	tags = append(tags, "transient-signer-failure")
 	miss := map[uint64]bool{}
-	for _, k := range append(append([]uint64{}, in.BatchFail...), in.BatchZero...) {
+	for _, k := range in.missKeys() {
 		miss[k] = true
 	}
 	// a member left out by the batch call whose position in its sub-batch differs from its position
